@@ -12,61 +12,6 @@ import (
 
 func init() { generators["C05"] = genC05 }
 
-func decPriv(algo crypto.SigningAlgorithm, b []byte) string {
-	return guard(func() string {
-		sk, err := crypto.DecodePrivateKey(algo, b)
-		if err != nil {
-			if crypto.IsInvalidInputsError(err) {
-				return "err"
-			}
-			return "err-other"
-		}
-		enc := sk.Encode()
-		// every produced object encodes to bytes that decode back to an Equal object
-		sk2, err := crypto.DecodePrivateKey(algo, enc)
-		if err != nil || !sk.Equals(sk2) {
-			return "ok " + hx(enc) + " roundtrip-fail"
-		}
-		return "ok " + hx(enc)
-	})
-}
-
-func decPub(algo crypto.SigningAlgorithm, b []byte) string {
-	return guard(func() string {
-		pk, err := crypto.DecodePublicKey(algo, b)
-		if err != nil {
-			if crypto.IsInvalidInputsError(err) {
-				return "err"
-			}
-			return "err-other"
-		}
-		enc := pk.Encode()
-		pk2, err := crypto.DecodePublicKey(algo, enc)
-		if err != nil || !pk.Equals(pk2) {
-			return "ok " + hx(enc) + " roundtrip-fail"
-		}
-		return "ok " + hx(enc)
-	})
-}
-
-func decPubCompressed(algo crypto.SigningAlgorithm, b []byte) string {
-	return guard(func() string {
-		pk, err := crypto.DecodePublicKeyCompressed(algo, b)
-		if err != nil {
-			if crypto.IsInvalidInputsError(err) {
-				return "err"
-			}
-			return "err-other"
-		}
-		enc := pk.EncodeCompressed()
-		pk2, err := crypto.DecodePublicKeyCompressed(algo, enc)
-		if err != nil || !pk.Equals(pk2) {
-			return "ok " + hx(enc) + " roundtrip-fail"
-		}
-		return "ok " + hx(enc)
-	})
-}
-
 // sigParse: E1_read_bytes then E1_write_bytes, observed through AggregateBLSSignatures([b]).
 func sigParse(b []byte) string {
 	return guard(func() string {
@@ -79,12 +24,6 @@ func sigParse(b []byte) string {
 		}
 		return "ok " + hx(s)
 	})
-}
-
-func flipBit(b []byte, i int) []byte {
-	o := append([]byte{}, b...)
-	o[i/8] ^= 1 << (7 - uint(i%8))
-	return o
 }
 
 // interesting field values for coordinates
@@ -287,7 +226,9 @@ func genC05(c *Ctx) {
 	}
 	// the documentation cites the ZCash format: compare the encoding of the generator's multiples with it
 	for _, k := range []*big.Int{big.NewInt(1), big.NewInt(2)} {
-		c.Case("pk-zcash-format", "pk.zcash 0x"+k.Text(16), "ok "+hx(pkOf(k)))
+		if c.prop == "C05" { // the ZCash-format finding F2 is a C05 matter; other transcripts reuse this generator without it
+			c.Case("pk-zcash-format", "pk.zcash 0x"+k.Text(16), "ok "+hx(pkOf(k)))
+		}
 		c.Case("pk-of-scalar", "pk.of 0x"+k.Text(16), "ok "+hx(pkOf(k)))
 	}
 	for i := 0; i < nRand; i++ {
